@@ -205,7 +205,7 @@ def view_class(W, classes, cls, names):
 def run_case(case):
     W = ElabWorld()
     import abc
-    ns = {"icontract": icontract, "W": W, "abc": abc}
+    ns = {"icontract": icontract, "W": W, "abc": abc, "__name__": case.get("module", "elab_case")}
     registered = []
     classes = []
     funcs = []
